@@ -7,7 +7,7 @@ common point; never raise / NaN.
 """
 import numpy as np
 
-from .. import monitors, prims
+from .. import gen, monitors, prims
 
 ID = "C10"
 PROPNUM = 10
@@ -87,6 +87,34 @@ def make_case(rng, idx):
             size_ = float(np.linalg.norm(b_ - a_))
             q = a_ + rng.uniform(0.15, 0.85) * (b_ - a_) + out * size_ * 10 ** rng.uniform(-9, -4)
             p1 = prims.translated(p1, q - prims.some_point_of(p1, rng))
+            sc.contact = True
+            return name, fname, kwargs, sc, p1, p2
+        except Exception:  # noqa: BLE001
+            pass
+    if p1.kind in ("line", "segment") and p2.kind in ("line", "segment") and rng.random() < 0.2:
+        # just outside the epsilon band: directions enclose an angle with sine 0.0105 .. 0.08 (not 'nearly parallel' in the
+        # sense of the property), short segments (0.2 .. 0.6) that cross in projection with a gap of 0 or a fraction of
+        # their length: closed-form denominators |d1|^2 |d2|^2 sin^2 are smallest here (C11r5-a)
+        try:
+            d1 = np.asarray(p1.dirs[0], float); d1 = d1 / np.linalg.norm(d1)
+            u = np.cross(d1, gen.rand_dir(rng)); u /= np.linalg.norm(u)
+            w = np.cross(d1, u)
+            sn = 10 ** rng.uniform(np.log10(0.0105), np.log10(0.08))
+            d2 = (np.sqrt(1 - sn * sn) * d1 + sn * u) * float(rng.choice([-1.0, 1.0]))
+            if p1.kind == "segment":
+                a1 = np.asarray(p1.args[0], float)
+                l1 = float(rng.uniform(0.2, 0.6)) if rng.random() < 0.7 else float(np.linalg.norm(np.asarray(p1.args[1]) - a1))
+                p1 = prims.rebuild("segment", (a1, a1 + d1 * l1))
+                m1 = a1 + d1 * l1 * rng.uniform(0.2, 0.8)
+            else:
+                m1 = np.asarray(p1.args[0], float) + d1 * rng.uniform(-1, 1)
+            l2 = float(rng.uniform(0.2, 0.6))
+            q = m1 + w * l2 * float(rng.choice([0.0, 1e-3, 0.05, 0.5]))
+            if p2.kind == "segment":
+                a2 = q - d2 * l2 * rng.uniform(0.2, 0.8)
+                p2 = prims.rebuild("segment", (a2, a2 + d2 * l2))
+            else:
+                p2 = prims.rebuild("line", (q + d2 * rng.uniform(-1, 1), d2))
             sc.contact = True
             return name, fname, kwargs, sc, p1, p2
         except Exception:  # noqa: BLE001
